@@ -60,6 +60,18 @@ Definition yield_upd (id : nat) (ie : binding) (concl : list nat) (k : K) (S : s
   let S1 := update_conclusion id (fst ie) concl S in
   set DYN id [] (k ie (getb FLAG id S1) S1).
 
+(* the loop body of Alternative._evaluate__ / Next._evaluate__ around each output of ElseIf / Union *)
+Definition sel_post (s : sel) (id : nat) (l r : tree) (k : K) (ie : binding) (S : store) : store :=
+  let i := fst ie in
+  let S1 := match s with
+            | SAlt => if negb (getb FLAG (root_id l) S) then update_conclusion id i (concl_now l S) S
+                      else if negb (getb FLAG (root_id r) S) then update_conclusion id i (concl_now r S) S
+                      else S
+            | _ => let S' := if getb LEV id S then update_conclusion id i (concl_now l S) S else S in
+                   if getb REV id S' then update_conclusion id i (concl_now r S') S' else S'
+            end in
+  set DYN id [] (k ie (getb FLAG id S1) S1).
+
 Section Eval.
   Variable W : list elem.
 
@@ -83,16 +95,7 @@ Section Eval.
             let S4 := set RY id old S3 in
             if ry then S4 else yield_upd id ie (concl_now l S4) k S4) S
     | Node id s l r =>
-        let post := fun (ie : binding) (S : store) =>
-          let i := fst ie in
-          let S1 := match s with
-                    | SAlt => if negb (getb FLAG (root_id l) S) then update_conclusion id i (concl_now l S) S
-                              else if negb (getb FLAG (root_id r) S) then update_conclusion id i (concl_now r S) S
-                              else S
-                    | _ => let S' := if getb LEV id S then update_conclusion id i (concl_now l S) S else S in
-                           if getb REV id S' then update_conclusion id i (concl_now r S') S' else S'
-                    end in
-          set DYN id [] (k ie (getb FLAG id S1) S1) in
+        let post := sel_post s id l r k in
         let eval_right := fun (src : option binding) (S : store) =>
           let S := setb LEV id false S in
           let S := ev r src (fun ie fr S' => post ie (setb REV id true (setb FLAG id fr S'))) S in
